@@ -125,3 +125,98 @@ func TestVerifReplayC11(t *testing.T) {
 		fmt.Println("REPLAY: not-reproduced (real code satisfies the property on this input)")
 	}
 }
+
+// Replay of VerifC11Exec scenarios: every command prints the scenario's bytes on stdout and, where
+// the scenario says so, one byte on stderr; a later task on the same runner reads the exported name.
+func TestVerifReplayC11Exec(t *testing.T) {
+	data, err := os.ReadFile(os.Getenv("VERIF_SCENARIO"))
+	if err != nil {
+		t.Skip("no scenario")
+	}
+	var sc struct {
+		Args   []int64                `json:"args"`
+		Inputs map[string]interface{} `json:"inputs"`
+	}
+	json.Unmarshal(data, &sc)
+	num := func(k string) int {
+		if f, ok := sc.Inputs[k].(float64); ok {
+			return int(f)
+		}
+		return 0
+	}
+	nc := int(sc.Args[0])
+	dir := t.TempDir()
+	seenOut := filepath.Join(dir, "seen")
+	var cmds, outs []string
+	var toErr []bool
+	for k := 0; k < nc; k++ {
+		esc := ""
+		b := make([]byte, num(fmt.Sprintf("outlen.%d", k)))
+		for i := range b {
+			b[i] = byte(num(fmt.Sprintf("out.%d.%d", k, i)))
+			esc += fmt.Sprintf("\\%03o", b[i])
+		}
+		outs = append(outs, string(b))
+		c := fmt.Sprintf("printf '%%s' '{{.Output}}' > %s.%d; printf '%s'", seenOut, k, esc)
+		e, _ := sc.Inputs[fmt.Sprintf("prints-to-stderr.%d", k)].(bool)
+		if e {
+			c += fmt.Sprintf("; printf '\\%03o' >&2", num(fmt.Sprintf("err.%d", k)))
+		}
+		toErr = append(toErr, e)
+		cmds = append(cmds, c)
+	}
+	for _, o := range outs {
+		if strings.ContainsAny(o, "'\x00") {
+			fmt.Println("REPLAY: not-replayable (a quote or NUL byte in the output cannot be written into the next command's text)")
+			return
+		}
+	}
+	p := task.FromCommands(cmds...)
+	p.Name = "prod"
+	key := "PROD_OUTPUT"
+	if v, _ := sc.Inputs["exportAs-given"].(bool); v {
+		p.ExportAs = "CHOSEN"
+		key = "CHOSEN"
+	}
+	r, _ := NewTaskRunner()
+	r.Stdout, r.Stderr = &strings.Builder{}, &strings.Builder{}
+	perr := r.Run(p)
+	all := strings.Join(outs, "")
+	got := filepath.Join(dir, "consumer-saw")
+	cons := task.FromCommands(fmt.Sprintf("printf '%%s|%%s' \"$%s\" \"$PROD_OUTPUT\" > %s", key, got))
+	cons.Name = "cons"
+	cerr := r.Run(cons)
+	raw, _ := os.ReadFile(got)
+	var bad []string
+	if perr != nil || cerr != nil {
+		bad = append(bad, fmt.Sprintf("producer/consumer failed: %v / %v", perr, cerr))
+	}
+	if p.Output() != all {
+		bad = append(bad, fmt.Sprintf("captured output %q, commands printed %q on stdout", p.Output(), all))
+	}
+	for k := 0; k < nc; k++ {
+		seen, _ := os.ReadFile(fmt.Sprintf("%s.%d", seenOut, k))
+		switch {
+		case k == 0 && string(seen) != "":
+			bad = append(bad, fmt.Sprintf("first command saw .Output %q", seen))
+		case k > 0 && !toErr[k-1] && string(seen) != outs[k-1]:
+			bad = append(bad, fmt.Sprintf("command %d saw .Output %q, previous printed %q", k, seen, outs[k-1]))
+		case k > 0 && toErr[k-1] && !strings.HasPrefix(string(seen), outs[k-1]):
+			bad = append(bad, fmt.Sprintf("command %d saw .Output %q, previous printed %q on stdout", k, seen, outs[k-1]))
+		}
+	}
+	wantDefault := all
+	if key != "PROD_OUTPUT" {
+		wantDefault = ""
+	}
+	// the shell's "$VAR" is the variable exactly; a trailing newline survives (no command substitution)
+	if want := all + "|" + wantDefault; string(raw) != want {
+		bad = append(bad, fmt.Sprintf("consumer saw %q under %s|PROD_OUTPUT, want %q", raw, key, want))
+	}
+	fmt.Printf("REPLAY: outputs=%q stderr=%v captured=%q consumer=%q\n", outs, toErr, p.Output(), raw)
+	if len(bad) > 0 {
+		fmt.Println("REPLAY: reproduced:", strings.Join(bad, "; "))
+	} else {
+		fmt.Println("REPLAY: not-reproduced (real code satisfies the property on this input)")
+	}
+}
